@@ -52,6 +52,23 @@ def special_scenarios():
                          {"kind": "rq30c9", "idx": 1, "prio": 0, "max_retries": 3, "timeout": 2 * G, "wfr": False}],
                 "events": [(0, ("made",)), (G, ("call", 0)), (2 * G, ("call", 1))], "plan": [],
                 "default_plan": {"lat": 0, "fail": False, "echo": None, "rply": None}})
+    # a backlog of equal-priority commands that straddles the 32-slot buffer size: first come, first served
+    kinds = [(k, i) for k in ("rq30c9", "w2309", "i30c9") for i in range(16)]
+    for n_before, n_burst in ((0, 34), (20, 22)):
+        cmds = [{"kind": k, "idx": i, "prio": 0, "max_retries": 0, "timeout": 20_000_000, "wfr": False} for k, i in kinds[: n_before + n_burst]]
+        evs = [(0, ("made",))] + [(G * (1 + 12 * j), ("call", j)) for j in range(n_before)]          # these complete one by one
+        evs += [(G * (1 + 12 * n_before + j), ("call", n_before + j)) for j in range(n_burst)]        # these pile up: one call per tick, one answer per 8 ticks
+        out.append({"lifo": False, "mode": False, "cmds": cmds, "events": evs, "plan": [], "default_plan": {"lat": 0, "fail": False, "echo": 8 * G, "rply": None}})
+    # echo and reply of the command in flight arrive in the SAME loop iteration while another command waits in the buffer; then silence
+    for wfr, n in ((True, 2), (True, 3), (False, 2)):
+        out.append({"lifo": False, "mode": False,
+                    "cmds": [{"kind": "rq30c9", "idx": i, "prio": 0, "max_retries": 3, "timeout": 20_000_000, "wfr": wfr} for i in range(n)],
+                    "events": [(0, ("made",))] + [(G, ("call", i)) for i in range(n)], "plan": [],
+                    "default_plan": {"lat": 0, "fail": False, "echo": 2 * G, "rply": 2 * G}})
+    # the connection is lost while a command is in flight (waiting for its echo / its reply), the transport reporting its own kind of error
+    for kind in (None, "transport", "serial", "oserror"):
+        out.append(one(3, 20_000_000, events=[(2 * G, ("lost", kind))]))
+        out.append(one(3, 20_000_000, wfr=True, default={"lat": 0, "fail": False, "echo": 2 * G, "rply": None}, events=[(5 * G, ("lost", kind))]))
     return out
 
 
@@ -229,8 +246,11 @@ def oracle(ctx: Ctx, pid: str, s, tr, st, qs, info) -> None:
                 late_fail = any(p["fail"] and p["lat"] > 0 for p in s["plan"])
                 conn = [(t, ev[0]) for t, ev in s["events"] if ev[0] in ("made", "lost")]
                 reconnect = any(t == e[1] and k == "made" and idx > 0 and conn[idx - 1][1] == "lost" for idx, (t, k) in enumerate(conn))
+                lost_at_end = (any(t == e[1] and k == "lost" for t, k in conn)
+                               and any(d[1] == e[1] for ds in dones.values() for d in ds))
                 sig = f"loop-exception:{e[2]}:" + ("caller-timeout-coincides-with-fsm-timer" if coincide else
                                                    "reconnect-after-loss-in-flight" if reconnect else
+                                                   "connection-lost-in-the-iteration-a-command-ended" if lost_at_end else
                                                    "delayed-write-fails-after-command-ended" if late_fail else "other")
                 ctx.violation(sig, "an exception was left unhandled in the event loop (an internal consistency check tripped)",
                               {**case, "at": e[1]}, "schedule")
